@@ -1,6 +1,6 @@
 """Pure-function properties (C15, C17, C18, C19): exhaustive TLC models of the transcribed functions
 plus vector traces from the implementation validated by TLC."""
-import json, os, time, concurrent.futures as cf
+import json, os, subprocess, shutil, time, concurrent.futures as cf
 from common import *
 
 def split_lines(path, shards, workdir, prefix):
@@ -199,5 +199,60 @@ def seekvec(tier, seed):
     errors, viols, states, gen = collect(results)
     lines = open(vec).read().splitlines()
     res = dict(errors=errors, viols=viols, vectors=n, states=states, generated=gen, wall=time.time() - t0, sample=[json.loads(lines[i]) for i in (3, len(lines) // 2, len(lines) - 2)])
+    json.dump(res, open(rp, 'w'))
+    return res
+
+
+def cachevec(tier, seed):
+    """C11 / C04: the real BlockCache driven directly (every sequence of three calls with failing device calls, random longer
+    ones), each call validated as one action of BlockCache.tla; the exhaustive run of that specification; cached"""
+    key = cache_key('cachevec', tier, seed)
+    wd = os.path.join(OUT, 'cache', key)
+    rp = os.path.join(wd, 'cache-result.json')
+    if os.path.exists(rp):
+        return json.load(open(rp))
+    t0 = time.time()
+    build_harness()
+    os.makedirs(wd, exist_ok=True)
+    m = model('BlockCache.tla', 'MCCache.cfg', tag='mccache')
+    if not m['ok']:
+        raise ToolError('BlockCache model check failed: ' + m['out'])
+    # Apalache: IndInv is inductive (base case, then one step from ANY state that satisfies it)
+    ind = []
+    for init, length in (('Init', 0), ('IndInit', 1)):
+        od = os.path.join(wd, 'apalache-%s' % init)
+        t1 = time.time()
+        r = subprocess.run(['timeout', '900', 'apalache-mc', 'check', '--cinit=ConstInit', '--init=' + init, '--inv=IndInv', '--length=%d' % length,
+                            '--out-dir=' + od, 'MCCacheInd.tla'], cwd=SPEC, stdout=subprocess.PIPE, stderr=subprocess.STDOUT, text=True)
+        ok = 'The outcome is: NoError' in r.stdout
+        ind.append(dict(init=init, length=length, ok=ok, wall=round(time.time() - t1, 1)))
+        shutil.rmtree(od, ignore_errors=True)
+        if not ok:
+            raise ToolError('Apalache: BlockCache.IndInv is not inductive (%s): %s' % (init, r.stdout[-1500:]))
+    vec = os.path.join(wd, 'vectors.ndjson')
+    r = sh([VH, 'cache', vec, tier, str(seed)])
+    if r.returncode != 0:
+        raise ToolError('vh cache failed: ' + r.stdout[-2000:])
+    native = json.loads(r.stdout.strip().splitlines()[-1])
+    # cut at Reset boundaries
+    lines = open(vec).read().splitlines()
+    shards = 8
+    parts = [[] for _ in range(shards)]
+    k = -1
+    for ln in lines:
+        if ln.startswith('{"ev":"Reset"'):
+            k += 1
+        parts[k % shards].append(ln)
+    traces = []
+    for i, p in enumerate(parts):
+        if p:
+            tp = os.path.join(wd, 'cachevec-%d.ndjson' % i)
+            open(tp, 'w').write('\n'.join(p) + '\n')
+            traces.append(tp)
+    results = validate('CacheTrace.tla', 'CacheTrace.cfg', traces, 'cache')
+    errors, viols, states, gen = collect(results)
+    res = dict(errors=errors, viols=viols, vectors=native['vectors'], sequences=native['sequences'], states=states + m['stats']['distinct'], generated=gen + m['stats']['generated'],
+               model=dict(cfg='BlockCache MCCache.cfg', states=m['stats']['distinct'], generated=m['stats']['generated'], wall=round(m['wall'], 1)), inductive=ind,
+               wall=time.time() - t0, sample=[json.loads(lines[i]) for i in (1, len(lines) // 2, len(lines) - 1)])
     json.dump(res, open(rp, 'w'))
     return res
